@@ -522,6 +522,11 @@ func fsreq(kind string, accept, compress, genIdx bool, method, path, content str
 }
 
 func genC08(tier string, rng *Rng) {
+	// ---- (0) cache and reader reference counts: op sequences with held downloads (c08cache.go).  First, while the
+	// process has few descriptors open (the scenarios count them), and with a random stream of its own so that the
+	// parts below see the stream they always saw.
+	genC08Cache(tier, &Rng{rng.s ^ 0xC08CAC4EC08CAC4E})
+
 	thorough := tier == "thorough"
 	maxLen, maxNum := 12, 14
 	if thorough {
